@@ -28,7 +28,7 @@ PROPS['C19'] = dict(
 )
 
 TREE_RULE = ('choice tape -> key-universe size in {4,8,12,16,32,64,128,256} and a history of <= 400 ops (search, insert x3, remove x2 of a present key, '
-             'duplicate insert of a resident key) on one tree whose nodes are separate heap blocks; after every call a full walk checks links, order, '
+             'duplicate insert of a resident key, bulk insert of 8..64 keys, manual link + insert_adjust) on one tree whose nodes are separate 0xCC-poisoned heap blocks; two builds: the default packed node layout and the unpacked one (A_SIZE_POINTER=1: separate parent and balance/colour members); after every call a full walk checks links, order, '
              'balance/colour invariants and identity against a std::map model; non-trivial = >= 8 successful inserts, >= 1 removal of a two-child node '
              'and >= 1 insert after a removal; distinct = hash of (universe, decoded op/key sequence)')
 TREE_ASSUME = COMMON_ASSUME + ['model: std::map<int, node*>; the walk reads the public node fields and decodes parent_ as documented in the header',
@@ -63,7 +63,7 @@ PROPS['C02'] = dict(
 PROPS['C03'] = dict(
     level='exploration',
     rule='(a) histories as for C01/C02 on both containers, with the full iterator battery (six traversals in both macro spellings, head/tail, next/prev inverses) after '
-         'mutating steps and a tear-down at the end whose interruption point and continuation mode come from the tape (nodes are freed when handed out); '
+         'mutating steps and a tear-down at the end whose start node (null, root or any element), interruption point and continuation mode come from the tape (nodes are freed when handed out); packed and unpacked node layouts; '
          '(b) enumeration: every insertion order of n <= 6 (quick) / 8 (thorough) distinct keys, every ordered pair of removals, every tear interruption point; '
          'non-trivial = final tree with >= 5 nodes having a left-only and a right-only internal node; distinct = hash of the decoded history (a) / distinct tree shapes (b)',
     assumptions=TREE_ASSUME + ['reference traversals are recursive walks over the same links; link integrity itself is C01/C02'],
@@ -105,7 +105,7 @@ PROPS['C05'] = dict(
          'length incl. 0/1, mov_next/mov_prev of a non-empty ring followed by a_list_init, set_node, swap_node of distinct non-adjacent nodes in one ring or across rings, section '
          'del_/add_/set_/swap_ on disjoint non-adjacent sections); slist: add_head/add_tail/add/del/del_head/rot/mov on two lists incl. empty and one-element lists; que: two queues, '
          'element sizes {0->1,1,2,3,4,8,12,16}, push/pull either end, insert/remove with indices up to SIZE_MAX, at() for negative/huge indices, push_sort, push+sort_fore/sort_back on sorted '
-         'contents, element swap (non-adjacent or identity), whole-queue swap, drop, setz, foreach; after every op both rings are walked forwards and backwards against the model, element '
+         'contents, element swap (adjacent, non-adjacent or identity), whole-queue swap, drop, setz, foreach (macro forms), bulk push/pull of 8..80 elements, and a fill-to-K / pull-a-few / drop scenario with K around the pool thresholds 8..65; after every op both rings are walked forwards and backwards against the model, element '
          'addresses must stay fixed and a pushed slot must not alias an enqueued element. non-trivial = list: a cross-ring swap or a section op; slist: a rot/mov on length <= 1 AND one on '
          'length >= 3; que: a pull followed by >= 2 pushes (recycling) or a whole-queue swap with a non-empty side. distinct = hash of the decoded op bytes and positions',
     assumptions=COMMON_ASSUME + ['preconditions respected by construction and counted under excluded_by_construction: swaps only on distinct non-adjacent nodes/sections, a_list_mov_* only from a non-empty ring '
@@ -125,7 +125,7 @@ PROPS['C06'] = dict(
     rule='choice tape -> <= 300 ops on two strings (heap or embedded objects): catc/catn/cats/cat and their non-terminating "_" forms with any byte values (NUL, >= 0x80) and lengths '
          'chosen to land 2/1/0 short of and 1 past the current capacity, catf from 11 typed templates (%s with a string sized to fill the spare room exactly / one more, %.*s, %d, %5u, %x, %c, '
          '%%, %g, mixed) compared with snprintf on the same arguments, a_utf_catc over all six encoding lengths, getc/getn (with/without destination, counts up to SIZE_MAX), trim/ltrim/rtrim '
-         'with default white space and explicit sets (incl. NUL, high bytes, "every byte of the content"), setn/setn_ within capacity, setm, exit (ownership hand-over, block checked and released), '
+         'with default white space and explicit sets (incl. NUL, high bytes, "every byte of the content"), setn/setn_ within capacity, setm (incl. reservations of 200..65536 bytes), exit (ownership hand-over, block checked and released), '
          'swap, dtor+ctor, cmp/cmpn/cmps; after every op len<=mem, content, and the NUL after the content (after terminating variants) are checked against std::string under ASan with an '
          'allocator ledger. non-trivial = history with a reallocation of a non-empty string, a formatted append that exactly fills the spare capacity, or a trim that empties a string of >= 2 bytes; '
          'distinct = hash of the decoded op bytes',
@@ -209,7 +209,7 @@ PROPS['C17'] = dict(
     rule='choice tape -> CRC case (width 8/16/32/64, bit order, polynomial from published ones or arbitrary incl. top bit set, arbitrary initial value, message of 0..300 arbitrary bytes, two split points) or hash case '
          '(bkdr/sdbm, initial value, message, split point). CRC oracle: all 256 table entries and the value equal bit-by-bit polynomial division in the same bit order (reference written from the definition, own bit '
          'reflection), three-piece feeding with carried value = one shot, and the opposite bit order on bit-reflected data/value gives the bit-reflected result. Hash oracle: multiply-add definition in 32-bit arithmetic, '
-         'hash(ab,v) = hash(b, hash(a,v)), NUL-terminated form = length form on the prefix before the first NUL, mixed feeding. Messages live in exact-size heap blocks (ASan). non-trivial = message >= 2 bytes containing '
+         'hash(ab,v) = hash(b, hash(a,v)), NUL-terminated form = length form on the prefix before the first NUL, mixed feeding. Messages live in exact-size heap blocks (ASan). Enumeration: one message of 2^32 + d bytes per routine (7 CRC updates, 4 hash forms; a 2 MiB block of non-zero bytes mapped 2049 times), at once against three pieces shorter than 2^32. non-trivial = message >= 2 bytes containing '
          'a byte outside 0x30-0x39 and a non-zero initial value; distinct = hash of (kind, width, order, polynomial, initial value, message)',
     assumptions=COMMON_ASSUME + ['reference: bitwise shift/xor division and bit-loop reflection in exec/C17.cc, independent of liba helpers'],
     units=lambda tier, seed: [Unit('crc_hash', 'exec/C17.cc', ['crc.c', 'hash.c'], tape_len=360, enum=True)],
@@ -226,7 +226,7 @@ PROPS['C18'] = dict(
          'reference encoder written from the bit layout, decode(encode(c)) = (same length, c) with and without value output, every proper prefix fails; encode/decode buffers end flush against a PROT_NONE page. '
          '(b) choice tapes: code points near boundaries, arbitrary byte strings of 0..16 bytes (lead/continuation/NUL dictionary) with an independently chosen stated length in an exact-size heap block (ASan): result <= stated '
          'length and <= 6, equal with and without value output, r >= 2 only if the lead announces r and bytes 1..r-1 are continuation bytes and the value equals the bit layout, r = 1 only for a non-NUL byte below 0xC0, '
-         'complete well-formed sequences are not rejected; a_utf_length = number / total length of successive successful decodes; well-formed strings: both counters = number of code points. '
+         'complete well-formed sequences are not rejected; a_utf_length = number / total length of successive successful decodes; well-formed strings: both counters = number of code points; texts of up to 256 mostly-ASCII code points with embedded NULs before the stated end and random cuts: a_utf_length = successive decodes. '
          'non-trivial = multi-byte code point or input starting with a byte >= 0x80; distinct = code points (enumerated, distinct by construction) + hash of decoded tape cases',
     assumptions=COMMON_ASSUME + ['a stray continuation byte decoding as a 1-byte character is not judged: the statement only constrains multi-byte acceptance',
                                  'a_utf_length_ (unchecked counter) is only required to be memory-safe on arbitrary input and exact on well-formed input'],
@@ -242,9 +242,9 @@ PROPS['C18'] = dict(
 PROPS['C16'] = dict(
     level='exploration',
     rule='choice tape -> one of: (tf) orders num_n, den_n in 0..8, integer coefficients |c|<=3, two integer input sequences |x|<=5 of length <= 24, a zero() position, scalars and a delay: outputs compared exactly with an '
-         '__int128 reference recurrence while every partial sum stays below 2^52, zero+rerun compared with a freshly initialised filter, linearity and time invariance exact on integers, delay lines in exact-size heap blocks; '
+         '__int128 reference recurrence while every partial sum stays below 2^52, zero+rerun compared with a freshly initialised filter, linearity and time invariance exact on integers, delay lines in exact-size dirty heap blocks, a new numerator or denominator (0..8 coefficients) installed on the live filter with a_tf_set_num / a_tf_set_den (replaced side restarts from zero, the other side keeps its history), the C++ member init/set_num/set_den/call operator/zero on a twin; '
          '(lpf) alpha from {0, 1, j/2^m, 2^-k, 1-2^-k, uniform}, integer or real inputs: output inside the range of {0, inputs so far} (exact for the dyadic class, 4 ulp otherwise), constant input: monotone approach and '
-         'settling no slower than (1-alpha)^k; (hpf) arbitrary prefix then a constant input: |output| non-increasing and bounded by alpha^k of the step response up to the rounding of (output+x)-input; '
+         'settling no slower than (1-alpha)^k; (hpf) arbitrary prefix then a constant input: |output| non-increasing and bounded by alpha^k of the step response up to the rounding of (output+x)-input, zero = fresh; lpf/hpf member gen / call operator / zero bit-equal to the C forms; '
          '(gen) fc, ts positive doubles over the WHOLE exponent range (subnormal .. near DBL_MAX), half of them steered so that fc*ts lies in [1e-12, 1e12]: results in [0,1], strictly inside and within 4 ulp of the '
          'long double formula when the product is in the window. non-trivial = tf with num_n,den_n >= 2 and >= 3 distinct consecutive inputs or a mid-history zero with num_n != den_n; lpf/hpf with 0 < alpha < 1; every gen case; '
          'distinct = hash of decoded parameters and inputs',
@@ -266,7 +266,7 @@ PROPS['C15'] = dict(
          '2^-10..2^10) or a polynomial (n in 0..13 coefficients, integer or real, evaluation point). Oracle in exact rational arithmetic (GMP mpq, doubles convert exactly): pos(0)=p0 and vel(0)=v0 exactly, acc(0)/jer(0) '
          'within 2 ulp; stored coefficients against the exactly solved boundary-value problem and end values of the stored polynomial against the requested ones within 16384*u*falling(deg,k)*S/T^k (S = sum of |boundary data| in position units); '
          'accessor outputs = exact derivative coefficients of the stored polynomial (2 ulp), vel/acc/jer(x) = exact derivatives of the stored position polynomial within the Horner bound at 4 query times (inside, at and outside [0,T]); '
-         'a_poly_eval/evar = exact ascending/descending value within the Horner bound, n = 0 gives 0, evar(swap(a)) = eval(a) and swap twice = identity bit for bit. '
+         'the C++ member gen/pos/vel/acc/jer/c0..c3 of the three structures give bit-identical coefficients and values; a_poly_eval/evar = exact ascending/descending value within the Horner bound, n = 0 gives 0, evar(swap(a)) = eval(a) and swap twice = identity bit for bit. '
          'non-trivial = all boundary derivatives non-zero and T != 1, or a polynomial with n >= 1; distinct = hash of decoded parameters',
     assumptions=COMMON_ASSUME + ['durations in [2^-10, 2^10] and boundary magnitudes <= 2^10 (no intermediate overflow; the statement\'s "many orders of magnitude")',
                                  'tolerance constant 16384 on u*scale is about 25x the largest ratio seen on the unchanged tree (evidence: metrics)'],
@@ -286,7 +286,7 @@ PROPS['C14'] = dict(
          'standard double-S inequality (evaluated in long double; infeasible draws are repaired by doubling the distance). Only a positive return value activates the oracle (others are counted under excluded_by_construction): '
          'non-negative phase durations adding up to T, pos(0)=p0, vel(0)=clamped v0, pos(T)=p1, vel(T)=recorded v1 (1e-9*scale), hold before 0 / after T (incl. acc=jer=0 for the bell profile), continuity of pos/vel(/acc) across every '
          'phase boundary (1e-7*scale between nextafter(t_b,-inf) and t_b), |vel|<=vm, |acc|<=am, |jer|<=jm (1e-9 relative) on a 200-point grid plus every boundary +-1ulp plus segment midpoints, and vel = d pos/dt, acc = d vel/dt, '
-         'jer = d acc/dt by central differences inside every phase longer than T/1000. non-trivial = any branch other than the plain full profile (no cruise, empty acceleration or deceleration phase, reduced acceleration) or '
+         'jer = d acc/dt by central differences inside every phase longer than T/1000. The C++ member gen/pos/vel/acc/jer of both structures are called with the same arguments and compared bit for bit. non-trivial = any branch other than the plain full profile (no cruise, empty acceleration or deceleration phase, reduced acceleration) or '
          'reversed travel; distinct = hash of the request',
     assumptions=COMMON_ASSUME + ['scale s = max(|p0|,|p1|,|p1-p0|, vm*T, 1); velocity/acceleration/jerk scales are the requested limits',
                                  'a request that the generator rejects (return value <= 0) is outside the statement and is not judged',
@@ -302,7 +302,7 @@ PROPS['C14'] = dict(
 
 PROPS['C13'] = dict(
     level='exploration',
-    rule='choice tape -> (a) one membership function of the 13 families with break points sorted by construction (equalities with probability 1/4 for trap/tri/lins/linz, non-zero widths for gauss/gbell/sig/S/Z/pi, equal slopes '
+    rule='two builds: a_real = double and float. choice tape -> (a) one membership function of the 13 families with break points sorted by construction (equalities with probability 1/4 for trap/tri/lins/linz, non-zero widths for gauss/gbell/sig/S/Z/pi, equal slopes '
          'and ordered centres for dsig) and x from {far left/right, each break point and its neighbours within 2 ulp, midpoints, random}: value in [0,1] (never NaN), equal to the documented piecewise shape evaluated in long double '
          '(4..256 ulp of 1 per family), exactly 1 on the core of the compact families incl. degenerate shoulders, S+Z = lins+linz = 1, monotone on each flank for a second point, dispatcher bit-equal; a zero-width ramp may take any '
          'value in [0,1] at its single break point; (b) a pair (and a third value) of membership degrees incl. 0, 1, equal values, denormals: each of the seven operators equals its documented formula (2 ulp, 8 for equ), is commutative '
@@ -325,12 +325,12 @@ PROPS['C13'] = dict(
 
 PROPS['C12'] = dict(
     level='exploration',
-    rule='choice tape -> controller kind (plain / fuzzy-tuned / single neuron / zero-vs-fresh pair), configuration and a history of up to 200 steps. Exact class: integer set-points and feedback |v| <= 1000, dyadic gains j/8 (|j| <= 64, ki >= 0), '
+    rule='two builds: a_real = double and float. choice tape -> controller kind (plain / fuzzy-tuned / single neuron / zero-vs-fresh pair), configuration and a history of up to 200 steps. Exact class: integer set-points and feedback |v| <= 1000 (100 in the float build), dyadic gains j/8 (|j| <= 64, ki >= 0), '
          'integer limits with summin <= 0 <= summax and outmin <= outmax (every intermediate exactly representable); real class: magnitudes up to 1e6 over 40 binades. Steps pick run / positional / incremental mode (switched within a history), '
          'zero, or a gain change. After every step: outmin <= out <= outmax, all state fields finite; plain/exact: output, integrator and cached fields equal a reference written from the documented difference equations exactly (real class: '
          'one-step equation within 64 ulp of the term magnitudes); integrator monotone once outside its clamp and overshooting by at most one increment; an incremental twin fed the same positional history agrees exactly for as long as no limit '
          'is active; zero then H2 equals a freshly initialised controller on H2 bit for bit (plain and neuron, the neuron keeping its present weights); a fuzzy controller with an all-zero rule base equals the plain controller exactly; fuzzy tables/operators '
-         'as in C13 with the scratch buffer sized for all sets. non-trivial = history in which an output or integrator limit became active and inactive again, or a zero occurred mid-history; distinct = hash of configuration and decoded steps',
+         'as in C13 with the scratch buffer sized for all sets, the gain schedule compared with the reference weighted mean after every step, set_rule (another subset of the consequent tables present) and set_opr on the live controller without re-issuing the base gains; every history is also driven through the C++ member functions of a_pid / a_pid_fuzzy / a_pid_neuro on a twin object and compared bit for bit. non-trivial = history in which an output or integrator limit became active and inactive again, or a zero occurred mid-history; distinct = hash of configuration and decoded steps',
     assumptions=COMMON_ASSUME + ['inputs obey the quantifier: ki >= 0, summin <= 0 <= summax, outmin <= outmax, magnitudes <= 1e6 so that no intermediate overflows',
                                  'the reference model follows the equations documented in pid.h; on the exact class all arithmetic is exact, so equality is required'],
     units=lambda tier, seed: [Unit(nm, 'exec/C12.cc', ['a.c', 'math.c', 'mf.c', 'fuzzy.c', 'pid.c', 'pid_fuzzy.c', 'pid_neuro.c'], defs=config_defs(real), tape_len=500,
@@ -371,7 +371,7 @@ PROPS['C11'] = dict(
     rule='one executor binary per build configuration: a subset of the 7 switches A_HAVE_ASINH/ACOSH/ATANH/EXPM1/LOG1P/ATAN2/HYPOT (libm or fallback each) x real type (double, float) passed as -D flags to the unmodified sources; '
          'quick: all-on, all-off and two seeded random subsets for both types, thorough: all 128 subsets x 2 types. Each tape yields up to 6 sub-cases: asinh/acosh/atanh/expm1/log1p/atan2 on arguments log-uniform over the whole exponent '
          'range of the type (both signs, 1+tiny for acosh, near 0 / +-0.5 / +-1 for atanh, > -1 for log1p, all quadrants and exact axis points for atan2) plus a dictionary of formula-switch values +-4 ulp; norms of 2, 3, n <= 40 '
-         '(strided) components mixing magnitudes whose squares over/underflow, cart2pol/cart2sph/pol2cart/sph2cart; sum/sum1/sum2/mean/dot and strided forms on integer (exact) and real data; copy/swap/fill/zero/push/roll and block '
+         '(strided) components mixing magnitudes whose squares over/underflow (incl. subnormal components), norms of 1000..300001 components of one common magnitude around sqrt(max), sqrt(min) or anywhere in the exponent range (rapidcheck processes only; compensated long double reference), cart2pol/cart2sph/pol2cart/sph2cart; sum/sum1/sum2/mean/dot and strided forms on integer (exact) and real data; copy/swap/fill/zero/push/roll and block '
          'forms on lengths 0..20 against std::rotate/copy models in exact-size heap blocks. Oracle: glibc long double functions (64-bit mantissa); accept |got-ref| <= K*u*|ref| (u = 2^-53 / 2^-24), norms (n+4)*u and finite whenever the '
          'true value is representable; atan2(0, x<0) accepts +-pi. non-trivial = argument outside [1e-3, 1e3] or on an axis, extreme norm mix, reductions/shifts with n >= 2; distinct = (configuration, function, argument bits)',
     assumptions=COMMON_ASSUME + ['reference: glibc asinhl/acoshl/atanhl/expm1l/log1pl/atan2l/sqrtl in x87 long double, whose own error (<= 1 ulp of 2^-64) is 2^-10 of the acceptance bound',
@@ -415,7 +415,7 @@ PROPS['C10'] = dict(
     rule='one executor binary per build configuration: a subset of the 23 A_HAVE_* switches (each function libm-backed or fallback) x real type (double, float), passed as -D flags to the unmodified sources; quick: all-on, all-off and two '
          'seeded random subsets for both types; thorough: all-on, all-off, the 23 single-off, the 23 single-on and 40 seeded random subsets for both types. Each tape yields up to 6 sub-cases over 58 complex operations (field arithmetic incl. '
          'real/imaginary scalar and in-place forms, inv, conj, neg, polar, abs/abs2/logabs/arg, sqrt, pow, pow_real, exp, log, log2, log10, logb, six trigonometric, six inverse, six hyperbolic, six inverse hyperbolic), 7 real-argument variants '
-         'and the inverse pairs (mul/div by the same real, imaginary and complex operand, exp(log z), log(exp z)). Arguments: modulus log-uniform over 2^-27..2^27 (2^-26..2^26 for float) or from a dictionary of formula-switch values +-4 ulp; angle '
+         'and the inverse pairs (mul/div by the same real, imaginary and complex operand, exp(log z), log(exp z)). Arguments: modulus log-uniform over 2^-27..2^27 (2^-26..2^26 for float) or from a dictionary of formula-switch values +-4 ulp, or up to 2^+-1000 for operations whose true result stays representable; for the inverse families one case in five is constructed on the region boundaries of the usual asin/acos algorithm (a = (|z+1|+|z-1|)/2 = 1.5, |Re z|/a = 0.6417, |Re z| = 1) and at their pairwise intersections within 1e-6..1e-16, mapped through the reductions of asinh/acsc/asec/acsch/asech; angle '
          'class = interior of each quadrant, near an axis (relative distance 1e-6..1e-3), or exactly on an axis; points closer than 2e-6*|z| to a branch cut of the function are moved off the cut (counted), poles/overflows of the true value are skipped (counted). '
          'Oracle: glibc long double complex functions (principal values, ISO C Annex G); accept |got-ref| <= K*u*(|ref| + kappa), kappa = max over directions {1, i} (and the second operand) of |f(z+eps|z|d)-f(z)|/eps with eps = 2^-30, evaluated by the '
          'same reference. non-trivial = z off both axes with modulus outside [0.5, 2] or within 1e-3 of an axis, every real-argument and pair case; distinct = (configuration, function, argument bits)',
